@@ -80,8 +80,9 @@ class RSt:
 
 
 class CFind:
-    def __init__(self, kind, fd, node, msg, trail, extra=None):
+    def __init__(self, kind, fd, node, msg, trail, extra=None, spacer_on_path=False):
         self.kind, self.fd, self.node, self.msg, self.trail, self.extra = kind, fd, node, msg, trail, extra
+        self.spacer_on_path = spacer_on_path
 
     def construct(self):
         return norm(self.node) if isinstance(self.node, ast.AST) else str(self.node)
@@ -95,8 +96,9 @@ Outcome = collections.namedtuple('Outcome', 'shape')
 
 
 class Conserve:
-    def __init__(self, repo, cursor_engine=None):
+    def __init__(self, repo, cursor_engine=None, entry_consts=None):
         self.repo = repo
+        self.entry_ctx = tuple(sorted((entry_consts or {}).items()))
         self.reader = repo.modules['reader']
         self.ce = cursor_engine
         self.summ = {}
@@ -127,7 +129,7 @@ class Conserve:
             self.changed = False
             self.done = set()
             self.final = False
-            self.summary(entry, ())
+            self.summary(entry, self.entry_ctx)
             if not self.changed:
                 break
         else:
@@ -140,7 +142,7 @@ class Conserve:
         self.obligations = 0
         self.discharged = collections.Counter()
         self.paths = 0
-        self.summary(entry, ())
+        self.summary(entry, self.entry_ctx)
         self.functions_reached = sorted({k[0] for k in self.done})
         missing = [fd.fq for fd in fns if fd.fq not in self.functions_reached]
         if missing:
@@ -257,9 +259,14 @@ class Conserve:
                     return True
         return False
 
-    def note(self, f):
+    def note(self, f, st=None):
         if self.final and not self.in_peek:
-            self.findings.setdefault(f.key(), f)
+            if st is not None:
+                f.spacer_on_path = any(r.kind == 'spacer' and r.whi != 0 for r in st.res.values())
+            old = self.findings.get(f.key())
+            # keep the witness path that needs the least (no whitespace token consumed) if there is one
+            if old is None or (old.spacer_on_path and not f.spacer_on_path):
+                self.findings[f.key()] = f
 
     # ------------------------------------------------------------------ class facts
     def delimiter_kinds(self, cinfo):
@@ -347,7 +354,7 @@ class ConsInterp(Interp):
             self.check_invention(v, st, node)
         if t == 'const' and isinstance(v[1], str) and v[1] != '' and how != 'borrow':
             self.eng.note(CFind('invention', self.fd, node, 'the literal %r flows into the parse tree: text that is '
-                                'not in the input would be serialised' % v[1], st.trail))
+                                'not in the input would be serialised' % v[1], st.trail), st)
         if t == 'proj':
             # a projection of an owned resource is stored: only part of it reaches the tree
             r = st.res.get(v[1])
@@ -395,7 +402,7 @@ class ConsInterp(Interp):
         else:
             self.eng.note(CFind('invention', self.fd, node, 'the literal text %r is added around parsed material and '
                                 'flows into the tree: characters that are not in the input would be serialised' % lit,
-                                st.trail))
+                                st.trail), st)
 
     def acquire(self, st, kind, node, wlo, whi, desc):
         rid = st.new(kind, node, wlo, whi, desc, self.fd)
@@ -758,26 +765,33 @@ class ConsInterp(Interp):
             return [(('other',), st)]
         if amount[0] == 'const' and isinstance(amount[1], int) and amount[1] >= 0:
             k = amount[1]
-            # roll back the most recently acquired live token resources adding up to exactly k
-            cands = sorted([r for r in st.res.values() if r.status == 'live' and r.kind in ('tok', 'spacer')
-                            and r.whi != 0], key=lambda r: -r.seq)
+            # moving the cursor back by k un-reads the k tokens consumed LAST on this path, whoever holds
+            # them: they must be exactly resources that are still unaccounted (live), of known size
+            cands = sorted([r for r in st.res.values() if r.kind in ('tok', 'spacer', 'call') and r.whi != 0
+                            and r.status != 'rolledback'], key=lambda r: -r.seq)
             left = k
             for r in cands:
                 if left == 0:
                     break
-                if r.wlo == r.whi and r.wlo != INF and r.wlo <= left:
+                if r.status == 'live' and r.wlo == r.whi and r.wlo != INF and r.wlo <= left:
                     r.status = 'rolledback'
                     left -= r.wlo
+                elif r.status != 'live':
+                    eng.note(CFind('rollback-of-stored', self.fd, n, 'the cursor is moved back by %d token(s) although the '
+                                   'token(s) consumed last on this path (%s) are already part of the tree: they would be read '
+                                   'a second time and appear twice in the output' % (k, r.desc), st.trail), st)
+                    left = 0
+                    break
                 else:
                     break
             st.epoch += 1
             if left != 0:
                 eng.note(CFind('unmatched-rollback', self.fd, n, 'the cursor is moved back by %d tokens but the tokens '
                                'consumed and still unaccounted on this path do not add up to that: tokens would be '
-                               'read twice' % k, st.trail))
+                               'read twice' % k, st.trail), st)
             return [(('other',), st)]
         eng.note(CFind('unmatched-rollback', self.fd, n, 'rollback by an amount that is not tied to what was '
-                       'consumed', st.trail))
+                       'consumed', st.trail), st)
         st.epoch += 1
         return [(('other',), st)]
 
@@ -1189,7 +1203,7 @@ class ConsInterp(Interp):
                 self.eng.obligations += 1
                 self.eng.note(CFind('spacer-dropped', self.fd, r.node, 'a whitespace token read before an argument '
                                     'position is neither followed by an argument nor rolled back at the end of the '
-                                    'loop iteration', st.trail))
+                                    'loop iteration', st.trail), st)
                 r.status = 'reported'
 
     def on_for(self, n, st):
@@ -1273,7 +1287,7 @@ class ConsInterp(Interp):
                     continue
                 eng.obligations += 1
                 eng.note(CFind('node-dropped', self.fd, r.node, 'a node built from consumed tokens is neither stored '
-                               'nor returned on this path', st.trail))
+                               'nor returned on this path', st.trail), st)
                 continue
             if r.kind == 'ctor':
                 continue
@@ -1294,7 +1308,7 @@ class ConsInterp(Interp):
                 if ok:
                     eng.discharged['regenerated'] += 1
                 else:
-                    eng.note(CFind('projection-unpinned', self.fd, r.node, why, st.trail))
+                    eng.note(CFind('projection-unpinned', self.fd, r.node, why, st.trail), st)
                 continue
             ok, why = self.regenerated(r, st)
             if ok:
@@ -1308,17 +1322,17 @@ class ConsInterp(Interp):
                     eng.discharged['licensed-spacer'] += 1
                     continue
                 eng.note(CFind('spacer-dropped', self.fd, r.node, 'a whitespace token is consumed and neither attached, '
-                               'rolled back nor followed by an argument', st.trail))
+                               'rolled back nor followed by an argument', st.trail), st)
                 continue
             pins = sorted(map(str, r.pins))
             if ('discard-statement',) in r.pins and any(p[0] == 'extent-literal' for p in r.pins):
                 eng.note(CFind('unguarded-discard', self.fd, r.node, 'tokens are discarded (%s) on a path where nothing '
                                'pins them to a delimiter the node re-emits: input characters vanish from the serialised '
-                               'output' % r.desc, st.trail, {'pins': pins}))
+                               'output' % r.desc, st.trail, {'pins': pins}), st)
             else:
                 eng.note(CFind('dropped', self.fd, r.node, 'the value of %s is consumed from the token stream but is '
                                'neither stored in the tree, returned, rolled back nor regenerated by the node built on '
-                               'this path' % r.desc, st.trail, {'pins': pins, 'path_end': where}))
+                               'this path' % r.desc, st.trail, {'pins': pins, 'path_end': where}), st)
         for cid, c in st.cont.items():
             pass
 
@@ -1451,11 +1465,11 @@ class ConsInterp(Interp):
                 return
             eng.note(CFind('literal-extent', self.fd, r.node, 'exactly %d tokens are discarded after a look-ahead by %s '
                            'whose extent is %s..%s tokens: when the recognised closer is written with a different '
-                           'number of tokens, too few or too many are removed' % (n, peeks[0][2], ext[0], ext[1]), st.trail))
+                           'number of tokens, too few or too many are removed' % (n, peeks[0][2], ext[0], ext[1]), st.trail), st)
             return
         eng.note(CFind('literal-extent', self.fd, r.node, 'exactly %d tokens are discarded after a text-prefix test whose '
-                       'extent in tokens is not fixed' % n, st.trail))
+                       'extent in tokens is not fixed' % n, st.trail), st)
 
 
-def analyse(repo, cursor_engine=None):
-    return Conserve(repo, cursor_engine).run()
+def analyse(repo, cursor_engine=None, entry_consts=None):
+    return Conserve(repo, cursor_engine, entry_consts).run()
